@@ -35,9 +35,10 @@ GLOBAL_TRUSTED = [
 
 def load_contracts():
     cdir = os.path.join(ROOT, "contracts")
-    for f in sorted(os.listdir(cdir)):
-        if f.endswith(".py") and not f.startswith("_"):
-            importlib.import_module("contracts." + f[:-3])
+    import contracts as _c
+    names = [f[:-3] for f in sorted(os.listdir(cdir)) if f.endswith(".py") and not f.startswith("_")]
+    for name in [n for n in _c.ORDER if n in names] + [n for n in names if n not in _c.ORDER]:
+        importlib.import_module("contracts." + name)
 
 
 def load_prop(pid):
